@@ -7,4 +7,8 @@ mod c01;
 #[cfg(kani)]
 mod c02;
 #[cfg(kani)]
+mod c03;
+#[cfg(kani)]
+mod c04;
+#[cfg(kani)]
 mod probe;
